@@ -126,6 +126,7 @@ func modelVerify(result *crlreader.CRLReadResult, chains *core.CertificateChains
 
 func modelDownload(l *crlloader.URLLoader, filePath string) error {
 	loadCalls++
+	verifrt.Yield() // a download takes long: other operations run meanwhile (whatever locks the caller holds)
 	s := servers[l.UrlString]
 	if s == nil || !s.up {
 		return verifrt.NewError("connection refused")
